@@ -337,6 +337,70 @@ func reloadResets(f *lib.File) []string {
 	return out
 }
 
+// moduleKey: the expressions by which loadModule indexes the module registry `proj.modules[…]` (distinct, in source order;
+// receiver printed as P, the label parameter as L). A key expression that is a local variable is followed to its definition.
+func moduleKey(fd *ast.FuncDecl) []string {
+	if fd == nil || fd.Recv == nil || len(fd.Recv.List[0].Names) != 1 {
+		return []string{"missing"}
+	}
+	recv := fd.Recv.List[0].Names[0].Name
+	lbl := ""
+	if ps := fd.Type.Params.List; len(ps) >= 2 && len(ps[1].Names) == 1 {
+		lbl = ps[1].Names[0].Name
+	}
+	ren := func(s string) string {
+		switch s {
+		case recv:
+			return "P"
+		case lbl:
+			return "L"
+		}
+		return s
+	}
+	defs := map[string]ast.Expr{}
+	ast.Inspect(fd.Body, func(n ast.Node) bool {
+		if a, ok := n.(*ast.AssignStmt); ok && a.Tok == token.DEFINE && len(a.Lhs) == 1 && len(a.Rhs) == 1 {
+			if id, ok := a.Lhs[0].(*ast.Ident); ok {
+				defs[id.Name] = a.Rhs[0]
+			}
+		}
+		return true
+	})
+	var text func(e ast.Expr) string
+	text = func(e ast.Expr) string {
+		switch e := e.(type) {
+		case *ast.Ident:
+			if d, ok := defs[e.Name]; ok && e.Name != recv && e.Name != lbl {
+				return text(d)
+			}
+			return ren(e.Name)
+		case *ast.CompositeLit:
+			var parts []string
+			for _, el := range e.Elts {
+				parts = append(parts, text(el))
+			}
+			return exprTextR(e.Type, ren) + "{" + strings.Join(parts, ",") + "}"
+		case *ast.KeyValueExpr:
+			return exprTextR(e.Key, ren) + ":" + text(e.Value)
+		}
+		return exprTextR(e, ren)
+	}
+	var out []string
+	seen := map[string]bool{}
+	ast.Inspect(fd.Body, func(n ast.Node) bool {
+		if ix, ok := n.(*ast.IndexExpr); ok {
+			if se, ok := ix.X.(*ast.SelectorExpr); ok && se.Sel.Name == "modules" {
+				if t := text(ix.Index); !seen[t] {
+					seen[t] = true
+					out = append(out, t)
+				}
+			}
+		}
+		return true
+	})
+	return out
+}
+
 func strList(xs []string) string {
 	var q []string
 	for _, x := range xs {
@@ -388,6 +452,7 @@ func main() {
 		o.Fail("func (*Project).Reload / load not found")
 	}
 	o.Def("reloadResets", "List String", strList(reloadResets(pf)))
+	o.Def("moduleKey", "List String", strList(moduleKey(pf.Func("Project.loadModule"))))
 	if done != nil {
 		o.Def("doneShape", "List String", strList(tags(done)))
 	} else {
